@@ -37,8 +37,8 @@ def c20_overlay(tmpdir):
 
 def _args(tier, seed):
     if tier == "quick":
-        return ["-seed", seed, "-n", 400, "-big", 1, "-e2e", 6]
-    return ["-seed", seed, "-n", 12000, "-big", 3, "-e2e", 60]
+        return ["-seed", seed, "-n", 400, "-big", 1, "-e2e", 9, "-errs"]
+    return ["-seed", seed, "-n", 3000, "-big", 3, "-e2e", 45, "-errs"]
 
 
 SPEC = dict(
@@ -46,11 +46,11 @@ SPEC = dict(
     extra_overlay=c20_overlay,
     targets=["Properties/C20.vo", "Corr/C20.vo"],
     args=_args,
-    search_args=lambda seed: ["-seed", seed, "-n", 1600, "-big", 0, "-e2e", 0],
+    search_args=lambda seed: ["-seed", seed, "-n", 1600, "-big", 0, "-e2e", 0, "-errs"],
     shard=50,
     timeout=2400,
     # 2 = the handler called Response.Error(c), c <> 200, and the client still read status 200
-    # (handler Error() calls are always part of the generated routes; the entry is in known_findings.json)
+    # (-errs makes handlers of generated routes call Error(); the entry is in known_findings.json)
     patterns={2: "C20-error-noop"},
     rule="LEVEL 1 (codec, in-memory sockets through overlay-added accessors): a fixed boundary set (match_until on 20 delimiter/overlap cases; 33 raw "
          "requests x 2 initial status codes through Request.parse; HandleFunc panics; 14 requests on and just outside each clause of the grammar G through the "
